@@ -38,6 +38,8 @@ const (
 	TFunc    = "func"
 	TComplex = "complex128"
 	TArray   = "array" // [2]Elem
+	TIntMap  = "intmap" // map[int]string: keys that are not strings are no property names
+	TBoolMap = "boolmap" // map[bool]int
 )
 
 var IntKinds = []string{TInt, TInt8, TInt16, TInt32, TInt64, TUint, TUint8, TUint16, TUint32, TUint64}
@@ -197,6 +199,10 @@ func GoType(t *Type) reflect.Type {
 		return reflect.TypeOf((func())(nil))
 	case TComplex:
 		return reflect.TypeOf(complex128(0))
+	case TIntMap:
+		return reflect.TypeOf(map[int]string(nil))
+	case TBoolMap:
+		return reflect.TypeOf(map[bool]int(nil))
 	case TArray:
 		e := t.Elem
 		if e == nil {
@@ -277,6 +283,10 @@ func (b *builder) build(v *Value) reflect.Value {
 		rv.Set(reflect.ValueOf(func() {}))
 	case TComplex:
 		rv.SetComplex(complex(1, 2))
+	case TIntMap:
+		rv.Set(reflect.ValueOf(map[int]string{1: "a", 2: "b", 3: "c"}))
+	case TBoolMap:
+		rv.Set(reflect.ValueOf(map[bool]int{true: 1, false: 0}))
 	case TArray:
 	}
 	return rv
@@ -454,7 +464,7 @@ func Describe(v *Value) string {
 		return fmt.Sprint(v.B)
 	case TFloat32, TFloat64:
 		return fmt.Sprintf("%s(%v)", v.T.K, v.Float())
-	case TChan, TFunc, TComplex, TArray:
+	case TChan, TFunc, TComplex, TArray, TIntMap, TBoolMap:
 		return "<" + v.T.K + ">"
 	}
 	return fmt.Sprintf("%s(%d)", v.T.K, v.I)
